@@ -1,4 +1,5 @@
-\* C33, faithful model, safety properties expected to hold (quick bounds; checks/C33.py overrides the bounds per tier).
+\* C33, faithful model (JoinSubscriber = TRUE: the code since /repo 9ae9635), safety properties (quick bounds; checks/C33.py
+\* overrides the bounds per tier).
 SPECIFICATION Spec
 CONSTANTS
   MaxLogs = 3
@@ -7,7 +8,7 @@ CONSTANTS
   MaxStops = 1
   MaxResets = 1
   MaxRestarts = 1
-  JoinSubscriber = FALSE
+  JoinSubscriber = TRUE
   Mutant = "none"
   LateAccepts = FALSE
   RecordHist = FALSE
@@ -15,5 +16,8 @@ INVARIANTS
   TypeOK
   InvBatchContiguous
   InvNoGapEver
+  InvNoGapSinceReset
+  InvStartPos
   InvPersistedLeAcked
+  InvPersistedLeAckedSinceReset
   InvLastLeAcked
